@@ -167,6 +167,8 @@ unique_ptr<DiscreteDistributionInterface> BppODiscreteDistributionFormat::readDi
       throw Exception("Missing argument 'n' (number of classes) in " + distName
             + " distribution");
     unsigned int nbClasses = TextTools::to<unsigned int>(args["n"]);
+    if (nbClasses == 0)
+      throw Exception("Invalid number of classes 'n' in " + distName + " distribution: " + args["n"]);
 
     if (distName == "Gamma")
     {
